@@ -108,6 +108,14 @@ CRYSTALS = {
         choices=[(np.diag([2, 2, 2]), "P"), (np.diag([3, 3, 2]), "P"), (np.diag([2, 2, 1]), "P")],
         nac=False, inexact=True,  # the spring model on these positions is invariant under the idealised space group to ~1e-6 only
     ),
+    "bcc_noncollinear": dict(  # non-collinear moments (one 3-vector per atom)
+        lattice=np.eye(3) * 2.88,
+        symbols=["Cr", "Cr"],
+        positions=[[0, 0, 0], [0.5, 0.5, 0.5]],
+        magmoms=[[0.0, 0.6, 0.8], [0.0, -0.6, -0.8]],
+        choices=[(np.diag([2, 2, 2]), "P"), (np.diag([2, 2, 1]), "P")],
+        nac=False,
+    ),
     "afm_mixed": dict(  # antiferromagnet with species interleaved so that grouping by species is a non-involutive permutation
         lattice=np.diag([3.02, 3.02, 4.31]),
         symbols=["Fe", "O", "O", "Fe"],
@@ -167,7 +175,7 @@ CRYSTALS = {
     ),
 }
 
-SMALL = ["perovskite", "nacl_prim", "cscl", "hcp", "hcp_6dec", "afm_mixed", "bcc_afm", "bct", "rhombo_hex", "wurtzite", "tric", "mono", "ortho_c", "rutile", "si", "nacl"]
+SMALL = ["perovskite", "nacl_prim", "cscl", "hcp", "hcp_6dec", "afm_mixed", "bcc_afm", "bcc_noncollinear", "bct", "rhombo_hex", "wurtzite", "tric", "mono", "ortho_c", "rutile", "si", "nacl"]
 
 
 class World:
@@ -220,7 +228,7 @@ class World:
         c = self.crystal
         kw = {}
         if c.get("magmoms") is not None:
-            kw["magnetic_moments"] = list(c["magmoms"])
+            kw["magnetic_moments"] = [list(m) if isinstance(m, (list, tuple)) else m for m in c["magmoms"]]
         return PhonopyAtoms(symbols=list(c["symbols"]), cell=np.array(c["lattice"], dtype=float) * self.scale,
                             scaled_positions=np.array(c["positions"], dtype=float), **kw)
 
